@@ -3,7 +3,7 @@ Client role — `service/client.go` (Connect), `service/service.go`
 (publish / subscribe / unsubscribe / ping and their completion wrappers) and
 `service/process.go` as run by a client (`svc.client = true`), over decoded
 packets.  Ack queues are the FIFO lists that `Properties/C13` proves the ring
-implementation refines; the single ping slot is modelled as the code has it.
+implementation refines, the ping FIFO of `Pingack` included.
 -/
 import Mqtt.Iface.Client
 import Mqtt.Model.Topics
@@ -35,6 +35,16 @@ def Queue.ack (q : Queue) (t id : Nat) (codes : List Nat := []) : Queue :=
 def Queue.acked (q : Queue) : Queue × List Req :=
   (q.dropWhile (fun e => terminal e.state), q.takeWhile (fun e => terminal e.state))
 
+/-- `Pingack.Ack(PINGRESP)`: the oldest ping that has no PINGRESP yet takes it -/
+def pingAck : List (Nat × Nat) → List (Nat × Nat)
+  | [] => []
+  | e :: rest =>
+    if e.1 != Generated.tPINGRESP then (Generated.tPINGRESP, e.2) :: rest else e :: pingAck rest
+
+/-- `Pingack.Acked()`: the leading pings that have their PINGRESP are handed back -/
+def pingAcked (l : List (Nat × Nat)) : List (Nat × Nat) × List (Nat × Nat) :=
+  (l.dropWhile (fun e => e.1 == Generated.tPINGRESP), l.takeWhile (fun e => e.1 == Generated.tPINGRESP))
+
 structure C where
   connected : Bool := false
   pub1ack   : Queue := []
@@ -42,12 +52,14 @@ structure C where
   pub2in    : Queue := []
   suback    : Queue := []
   unsuback  : Queue := []
-  ping      : Option (Nat × Nat) := none     -- the single ping slot: (state, tag)
+  pings     : List (Nat × Nat) := []          -- the ping FIFO of `Pingack`: (state, tag), oldest first
   topics    : MemTopics := MemTopics.new      -- subscribers are callback ids
   ctr       : Nat := 0                        -- `message.gPacketID`
 deriving Repr
 
-/-- `onPublish` in the client role: look up the callbacks registered for the topic and call each -/
+/-- `onPublish` in the client role: look up the callbacks registered for the topic and call each.
+The RETAIN flag is handed on as received (`sr := !p.client && msg.Retain()` is false in this
+role: only a broker clears the flag for its live fan-out, `Model.Broker.fanoutLive`). -/
 def onPublish (c : C) (p : Pub) : List Out :=
   match c.topics.subscribers p.topic p.qos with
   | none => []
@@ -106,9 +118,8 @@ def peer (c : C) (p : Packet) : C × List Out :=
     foldDone unsubscribeDone { c with unsuback := rest } rel
   | .pingreq => (c, [.wrote .pingresp])
   | .pingresp =>
-    match c.ping with
-    | some (_, tag) => ({ c with ping := none }, completeOut tag false)
-    | none => (c, [])
+    let (rest, rel) := pingAcked (pingAck c.pings)
+    ({ c with pings := rest }, rel.flatMap (fun e => completeOut e.2 false))
   | _ => (c, [])
 
 /-- identifier assignment of `Encode` for a request without one -/
@@ -146,7 +157,7 @@ def apiRegister (c : C) : Api → C × List Out
     ({ c with suback := c.suback.wait { id := id, tag := tag, topics := topics, cb := cb } }, [])
   | .unsubscribe id topics tag =>
     ({ c with unsuback := c.unsuback.wait { id := id, tag := tag, topics := topics.map (fun t => (t, 0)) } }, [])
-  | .ping tag => ({ c with ping := some (0, tag) }, [])
+  | .ping tag => ({ c with pings := c.pings ++ [(0, tag)] }, [])
 
 def connect (c : C) : Answer → C × List Out
   | .connack _ code => if code == 0 then ({ c with connected := true }, [.connected]) else (c, [.refused code])
